@@ -326,6 +326,30 @@ class Scaled(Objective):
         return self.base.g(x) * self.s
 
 
+class Translated(Objective):
+    """base(x - T): the same problem in coordinates whose origin is far away (bounds and iterates of large magnitude
+    compared with the width of the box and the scale on which the objective varies)."""
+
+    def __init__(self, base: Objective, T: float):
+        super().__init__(base.n)
+        self.base, self.T = base, float(T)
+        self.name = f"translated({base.name})"
+        self.convex = base.convex
+        self.analytic = base.analytic
+
+    def f(self, x):
+        return self.base.f(np.asarray(x) - self.T)
+
+    def g(self, x):
+        return self.base.g(np.asarray(x, dtype=float) - self.T)
+
+    def fmag(self, x):
+        return self.base.fmag(np.asarray(x, dtype=float) - self.T)
+
+    def curv(self, x):
+        return self.base.curv(np.asarray(x, dtype=float) - self.T)
+
+
 class XScaled(Objective):
     """fs * base(x / xs): the same problem in other units (tiny / huge magnitudes of x, f and g)."""
 
